@@ -1,9 +1,11 @@
 package main
 
 import (
+	"fmt"
 	"go/constant"
 	"go/token"
 	"go/types"
+	"os"
 	"strings"
 
 	"golang.org/x/tools/go/ssa"
@@ -332,7 +334,11 @@ func litTypeName(a *ssa.Alloc) string {
 	if a == nil {
 		return ""
 	}
-	return namedTypeName(a.Type().(*types.Pointer).Elem())
+	el := a.Type().(*types.Pointer).Elem()
+	if _, isPtr := types.Unalias(el).(*types.Pointer); isPtr {
+		return "" // the cell of a captured pointer variable, not a literal of the type
+	}
+	return namedTypeName(el)
 }
 
 // sendsOn lists Send instructions and select send states in f whose channel is a
@@ -1113,6 +1119,11 @@ func (k *core) checkExitOnFreshScan(rule string) {
 					continue // the type switch over the event
 				}
 			}
+			if hb := ec.If.Block(); hb != hdr && isLoopHeader(hb) && !ec.Val {
+				// "the inner loop ran to its end": implied by the value of a join behind a scanning loop that was
+				// written into the monitor; the join itself is the data condition and is looked at on its own
+				continue
+			}
 			n++
 			fresh, stale := false, false
 			seen := map[ssa.Value]bool{}
@@ -1263,6 +1274,12 @@ func (k *core) checkExitOnFreshScan(rule string) {
 						}
 					}
 				}
+			}
+			if !fresh && !stale {
+				fresh = inlineWatchScan(m, hdr, ec.Cond, fWatching)
+			}
+			if !fresh && os.Getenv("VERIF_DEBUG") != "" {
+				fmt.Fprintf(os.Stderr, "DEBUG exit cond %s = %v val=%v in block %d\n", ec.Cond.Name(), ec.Cond, ec.Val, ec.If.Block().Index)
 			}
 			c.check(fresh && !stale, rule, relName(m)+"#exit#"+itoa(n), r.Pos(), "the exit decision comes from a complete scan of the watching bits made for this event",
 				"the monitor's exit on a Done event depends on state carried across events (or on nothing that reads the slots' watching bits): a source calling Done twice can make it exit while another source is still watching, whose later reports are never stacked")
@@ -1603,4 +1620,140 @@ func (k *core) isCurrentConfig(v ssa.Value, depth int) bool {
 		return true
 	}
 	return false
+}
+
+// inlineWatchScan: the scan of the watching bits written in the monitor itself (a scanning helper folded into it, or
+// never factored out). cond is the exit condition; it must be the outcome of a loop inside the monitor's event loop
+// that reads the watching bits, in one of two shapes: (A) a join of constants behind the loop, where every early exit
+// of the scanning loop arrives with "true" (someone is still watching), or (B) a flag accumulated over the whole loop
+// (the loop has no early exit).
+func inlineWatchScan(m *ssa.Function, hdr *ssa.BasicBlock, cond ssa.Value, fWatching *types.Var) bool {
+	readsIn := func(h *ssa.BasicBlock) bool {
+		for _, b := range m.Blocks {
+			if b != h && !inLoopBody(h, b) {
+				continue
+			}
+			for _, bi := range b.Instrs {
+				if fl, ok := bi.(*ssa.Field); ok && sameField(fieldVar(fl.X.Type(), fl.Field), fWatching) {
+					return true
+				}
+				if fa, ok := bi.(*ssa.FieldAddr); ok && sameField(fieldVar(fa.X.Type(), fa.Field), fWatching) {
+					for _, rr := range *fa.Referrers() {
+						if u, ok := rr.(*ssa.UnOp); ok && u.Op == token.MUL {
+							return true
+						}
+					}
+				}
+			}
+		}
+		return false
+	}
+	var scans []*ssa.BasicBlock
+	for _, h := range loopHeaders(m) {
+		if h != hdr && hdr != nil && hdr.Dominates(h) && readsIn(h) {
+			scans = append(scans, h)
+		}
+	}
+	if len(scans) == 0 {
+		return false
+	}
+	for {
+		u, ok := cond.(*ssa.UnOp)
+		if !ok || u.Op != token.NOT {
+			break
+		}
+		cond = u.X
+	}
+	ph, ok := cond.(*ssa.Phi)
+	if !ok {
+		return false
+	}
+	for _, h := range scans {
+		if ph.Block() == h {
+			// (B) accumulated over the complete loop
+			return len(earlyLoopExits(m, h, false)) == 0
+		}
+	}
+	// (A)
+	originOf := func(p *ssa.BasicBlock, h *ssa.BasicBlock) *ssa.BasicBlock {
+		for hops := 0; hops < 5; hops++ {
+			if p == h || inLoopBody(h, p) {
+				return p
+			}
+			if len(p.Preds) != 1 {
+				return nil
+			}
+			p = p.Preds[0]
+		}
+		return nil
+	}
+	for _, h := range scans {
+		early, fromLoop, good := 0, 0, true
+		for pi, p := range ph.Block().Preds {
+			o := originOf(p, h)
+			if o == nil {
+				continue
+			}
+			fromLoop++
+			if o != h {
+				early++
+				if cst, ok := ph.Edges[pi].(*ssa.Const); !ok || cst.Value == nil || cst.Value.ExactString() != "true" {
+					good = false
+				}
+			}
+		}
+		if fromLoop == 0 {
+			continue
+		}
+		// every early exit of the scanning loop is one of those edges
+		if len(earlyLoopExits(m, h, false)) != early {
+			good = false
+		}
+		return good
+	}
+	return false
+}
+
+func isLoopHeader(b *ssa.BasicBlock) bool {
+	for _, p := range b.Preds {
+		if b.Dominates(p) {
+			return true
+		}
+	}
+	return false
+}
+
+// checkEnableHelperOnlyWhileSkipping (shared by C04 and C09): the monitor calls the enable helper - whose negated
+// result becomes the skip flag - only while the flag is true. Called with verification already on, a false answer
+// (the installed config does not verify right now) would switch verification of all later updates off again.
+func (k *core) checkEnableHelperOnlyWhileSkipping(rule string) {
+	c := k.c
+	m := k.monitor
+	args, origins := k.skipFlagOrigins()
+	var helper *ssa.Function
+	for _, o := range origins {
+		if o.Kind == "not-call" {
+			helper = o.Fn
+		}
+	}
+	if helper == nil {
+		return
+	}
+	isSkip := func(v ssa.Value) bool {
+		for _, a := range args {
+			if v == a {
+				return true
+			}
+		}
+		return false
+	}
+	for _, ci := range callsToFn(m, helper) {
+		okg := false
+		for _, ec := range condsDominating(ci.Block()) {
+			if isSkip(ec.Cond) && ec.Val {
+				okg = true
+			}
+		}
+		c.check(okg, rule, relName(m)+"#helper-call", ci.Pos(), "the enable helper is only called while skipVerify is true", "the enable helper is called without skipVerify being known true: its (negated) answer is assigned to the flag, so a repeated enable request can switch verification of later updates off again")
+	}
 }
